@@ -66,4 +66,19 @@ def lockedCallsOk : Bool := lockedCalls.all lockedCallOk
 def wgAddOk (a : String × String × Bool × Bool × Bool × String) : Bool := !a.2.2.2.2.1 || a.2.2.1 || a.2.2.2.1
 
 def wgAddsOk : Bool := wgAdds.all wgAddOk
+
+/-- thread roots that shut the instance down: they stop the whole store on purpose -/
+def shutdownRoots : List String := ["Server.Close", "Server.Shutdown", "dir.Close", "mem.Close"]
+
+/-- (thread root, mutex) pairs that are known to be held across a wait of the repository protocol in the tree as it is:
+    the cleanup of an aged-out entry of the directory store's cache of repositories runs `dirRepo.gc` — which takes the token
+    and waits for the in-flight requests — under the cache mutex (see notes/design-C12-C13.md, finding "prune timer") -/
+def waitExceptions : List (String × String) := [("timer:Cache.pruneAge@dir.repos", "dir.repos/Cache.mu")]
+
+/-- a blocking wait of the repository protocol (taking the token, `wg.Wait` of the collector) holds no mutex: the protocol
+    model `PxT` lets a waiting thread block nobody but through the token and the count -/
+def repoWaitOk (w : String × String × List String × String × String × String) : Bool :=
+  shutdownRoots.contains w.2.2.2.1 || w.2.2.1.all (fun m => waitExceptions.contains (w.2.2.2.1, m))
+
+def repoWaitsOk : Bool := repoWaits.all repoWaitOk
 end Lk
